@@ -383,6 +383,12 @@ class MessageAccumulator:
             batch.failure(exception)
         self._exception = exception
 
+    def fail_batches(self, tps, exception):
+        """Fail all not yet drained batches of the given partitions"""
+        for tp in tps:
+            for batch in self._batches.pop(tp, ()):
+                batch.failure(exception)
+
     async def close(self):
         self._closed = True
         await self.flush()
